@@ -26,6 +26,8 @@ def run(prog, rep):
     rep.rule('R10.12', 'both MsgPack reader copies keep every length taken from the input in an integer object wide enough for its length field '
                        '(8 x field bytes, one more bit when something is added): a copy that narrows it agrees with its twin only for short payloads', floor=20)
     M.narrow_findings(prog, rep, 'R10.12')
+    rep.rule('R10.17', 'ReadExtSize (both reader copies): the length field of k = 1, 2, 4 bytes is read once, unsigned, and returned', floor=6)
+    M.check_ext_size(prog, rep, 'R10.17')
     from rules import c06
     from rules import msgpack_writer_tables as W
     rep.rule('R10.2', 'memory and stream MsgPack writers have equal emission tables for every overload and every value/length cell', floor=240)
